@@ -727,13 +727,25 @@ func toDecimal64(val interface{}) (float64, error) {
 	case int64:
 		return float64(x), nil
 	case float32:
-		return float64(x), nil
+		return finite(float64(x))
 	case float64:
-		return x, nil
+		return finite(x)
 	case string:
-		return strconv.ParseFloat(x, 64)
+		f, err := strconv.ParseFloat(x, 64)
+		if err != nil {
+			return 0, err
+		}
+		return finite(f)
 	}
 	return 0, fmt.Errorf("cannot coerse '%T' to float64", val)
+}
+
+// finite rejects NaN and infinities, which no decimal64 can hold
+func finite(f float64) (float64, error) {
+	if math.IsNaN(f) || math.IsInf(f, 0) {
+		return 0, fmt.Errorf("cannot coerse %v to decimal64", f)
+	}
+	return f, nil
 }
 
 func toDecimal64List(val interface{}) ([]float64, error) {
